@@ -31,12 +31,13 @@ Proof.
   - (* J2 *) intros u. rewrite HT. destruct (Nat.eqb_spec u t) as [->|Hne']; cbn [refs clk x'].
     + intros _. pose proof (J2 s I t Hr). subst c'. pw.
     + apply (J2 s I u).
-  - (* J3 *) intros u. cbn [view m].
-    destruct (J3 s I u) as [H3|[h [Hh H3]]].
+  - (* J3 *) intros _ u. cbn [view m].
+    destruct (J3 s I Hl u) as [H3|[[h [Hh H3]]|[h [Hm H3]]]].
     + left. rewrite get_join. lia.
     + destruct (Nat.eqb_spec h t) as [->|Hne'].
       * left. rewrite get_join. subst c'. rewrite get_tick. destruct (Nat.eqb_spec u t); subst; lia.
-      * right. exists h. rewrite HT. destruct (Nat.eqb_spec h t); [contradiction|]. auto.
+      * right. left. exists h. rewrite HT. destruct (Nat.eqb_spec h t); [contradiction|]. auto.
+    + exfalso. exact (mustfree_no_refs s h t I Hm Hr).
   - (* J4 *) intros u. rewrite HT. destruct (Nat.eqb_spec u t) as [->|Hne']; cbn [mustfree clk pend x'].
     + intros Hm. apply Nat.eqb_eq in Hm.
       assert (Hall0 : forall w, w <> t -> refs (T s w) = 0).
@@ -44,10 +45,11 @@ Proof.
       split; [reflexivity|]. split; [lia|]. split; [|split].
       * pose proof (J2 s I t Hr). subst c'. pw.
       * intros v. rewrite !get_join. subst c'. rewrite get_tick.
-        destruct (J3 s I v) as [H3|[h [Hh H3]]].
+        destruct (J3 s I Hl v) as [H3|[[h [Hh H3]]|[h [Hm' H3]]]].
         -- destruct (Nat.eqb_spec v t); subst; lia.
         -- destruct (Nat.eqb_spec h t) as [->|Hne'']; [destruct (Nat.eqb_spec v t); subst; lia|].
            specialize (Hall0 h Hne''). lia.
+        -- exfalso. exact (mustfree_no_refs s h t I Hm' Hr).
       * intros w. rewrite HT. destruct (Nat.eqb_spec w t); [auto|]. intros Hw.
         destruct (J4 s I w Hw) as (_ & H0 & _). lia.
     + intros Hm. destruct (J4 s I u Hm) as (_ & H0 & _). lia.
